@@ -542,7 +542,8 @@ def _definitely_value(r):
 
 def apply(func, args, kwargs=None):
     """Apply a named function to Rat arguments, returning a Rat (with rewrites)."""
-    args = list(args)
+    args = [tuple(a) if isinstance(a, list) else a for a in args]
+    kwargs = {k: (tuple(v) if isinstance(v, list) else v) for k, v in (kwargs or {}).items()}
     kw = tuple(sorted((kwargs or {}).items()))
     extra = tuple(("kw:" + k, v) for k, v in kw)
     x = args[0] if args and isinstance(args[0], Rat) else None
